@@ -52,6 +52,14 @@ def assembleCode (pkgs : List (Bytes × Bytes)) (main : Bytes) : Bytes :=
   if pkgs.isEmpty then main else
   Gen.requirePreamblePackage.flatten ++ pkgs.flatMap (fun p => pkgBlock p.1 p.2) ++ Gen.requirePreambleRequire.flatten ++ main
 
+/-- the decision which top-level statements of a package are stripped (build.py `_evaluate_require`): a
+`function NAME(...)` statement whose name path is the single name `NAME`, without `:method`, with `NAME` one of the
+game-loop function names.  (`local function`, assignments of function values and `function a.b()` are never stripped.) -/
+def stripsStat (namepath : List Bytes) (methodname : Option Bytes) : Bool :=
+  match namepath, methodname with
+  | [n], none => Gen.gameLoopNames.contains n
+  | _, _ => false
+
 /-- removing the token ranges `[s, e)` of the stripped statements (sorted, disjoint) from a token list -/
 def dropRanges {α : Type} (toks : List α) : List (Nat × Nat) → Nat → List α
   | [], pos => toks.drop pos
